@@ -1,7 +1,8 @@
 #!/bin/bash
 # usage: tools/seedtest.sh <pid> <patch> [tier]
-# Runs the check for <pid> against a scratch copy of /repo's HEAD working tree with the seeded change applied
-# (HMCLAB_REPO override), so /repo itself is never touched.  The evidence file of the seeded tree is discarded.
+# Runs the check for <pid> against a scratch copy of /repo's working tree with the seeded change applied
+# (HMCLAB_REPO / HMCLAB_GEN / HMCLAB_EVIDENCE overrides): /repo, /verif/evidence and /verif/coq/gen are not touched,
+# so several of these can run side by side.
 pid=$1; patch=$(readlink -f "$2"); tier=${3:-quick}
 S=$(mktemp -d /var/tmp/seedtest.XXXXXX)
 trap 'rm -rf "$S"' EXIT
@@ -12,11 +13,9 @@ if ! git apply "$patch" 2>/dev/null; then
     if ! patch -p1 --fuzz=3 < "$patch" >/dev/null 2>&1; then echo "seed $pid: patch does not apply"; exit 2; fi
   fi
 fi
+mkdir -p $S/gen $S/evidence /verif/.work
 cd /verif
-mkdir -p .work
-cp evidence/$pid.json .work/evidence_$pid.keep 2>/dev/null
-HMCLAB_REPO=$S/repo PYTHONPATH=$S/repo PYTHONHASHSEED=0 /venv/bin/python check.py "$pid" --tier "$tier" > /verif/.work/seedtest_$pid.log 2>&1
+HMCLAB_GEN=$S/gen HMCLAB_EVIDENCE=$S/evidence HMCLAB_REPO=$S/repo PYTHONPATH=$S/repo PYTHONHASHSEED=0 /venv/bin/python check.py "$pid" --tier "$tier" > /verif/.work/seedtest_$pid.log 2>&1
 rc=$?
-cp .work/evidence_$pid.keep evidence/$pid.json 2>/dev/null
 echo "seed $pid: check exit $rc"; grep -E "^VIOLATION|^KNOWN" /verif/.work/seedtest_$pid.log | cut -c1-300 | head -5
 exit 0
